@@ -893,6 +893,7 @@ impl Prop for C15 {
             }
         }
         ctx.end_family(true);
+        fs_family(ctx, &dir, &file);
         tcp_conformance(ctx, &file);
         ctx.extra_set("bfs_states", json!(total_states));
         ctx.extra_set("bfs_transitions", json!(total_trans));
@@ -912,6 +913,35 @@ impl Prop for C15 {
             for (c, d, detail) in backpressure_close(&big, &small, v.trim_start_matches("huge_")) {
                 ctx.violation(&c, &d, || case.clone(), detail);
             }
+            ctx.eval(true);
+            let _ = std::fs::remove_dir_all(&dir);
+            return;
+        }
+        if case["family"] == "fs_product" {
+            if build_adlt_bin().is_err() {
+                return;
+            }
+            let dir = scratch_dir();
+            let small = format!("{dir}/log8.dlt");
+            std::fs::write(&small, gen_log(8).0).expect("write");
+            let _ = fs_cases(&dir);
+            let mut d = Driver::spawn();
+            if case["open"] == true {
+                let _ = d.step(&format!(r#"C open {{"files":["{small}"]}}"#), 90);
+            }
+            let path = case["path"].as_str().unwrap_or("").replace("{D}", &dir);
+            match d.step(&format!("C fs {}", json!({"cmd": case["cmd"], "path": path})), 60) {
+                Err(e) => ctx.violation("driver_died", "fs", || case.clone(), format!("{e:?}")),
+                Ok(r) => {
+                    if !r["panic"].is_null() {
+                        let p = r["panic"].as_str().unwrap_or("");
+                        ctx.violation("panic", p.split('|').next().unwrap_or(""), || case.clone(), p.to_string());
+                    } else if r["frames"].as_array().map(|a| a.len()).unwrap_or(0) != 1 {
+                        ctx.violation("reply_count", "fs", || case.clone(), format!("frames: {}", r["frames"]));
+                    }
+                }
+            }
+            d.kill();
             ctx.eval(true);
             let _ = std::fs::remove_dir_all(&dir);
             return;
@@ -1056,6 +1086,80 @@ impl Endpoint for TcpEndpoint {
         }
         Ok(frames)
     }
+}
+
+/// the `fs` command is stateless: every (cmd, path) of a product over directories, files, archives (with members,
+/// without any entry, corrupt), archive-internal paths and malformed forms is sent to a closed and to an open
+/// session; each must be answered by exactly one ok:/err: frame and never panic.
+pub fn fs_cases(dir: &str) -> Vec<(String, String)> {
+    let zip = crate::c20::write_zip(&[("x.dlt".to_string(), b"abc".to_vec()), ("sub/y.dlt".to_string(), b"defg".to_vec()), ("sub/deep/z.txt".to_string(), vec![])]);
+    std::fs::write(format!("{dir}/a.zip"), &zip).expect("write zip");
+    std::fs::write(format!("{dir}/empty.zip"), crate::c20::write_zip(&[])).expect("write empty zip");
+    std::fs::write(format!("{dir}/corrupt.zip"), b"PK\x03\x04 this is not a zip archive").expect("write");
+    std::fs::write(format!("{dir}/truncated.zip"), &zip[..zip.len() / 2]).expect("write");
+    std::fs::write(format!("{dir}/plain.txt"), b"hello").expect("write");
+    let _ = std::fs::create_dir_all(format!("{dir}/sub dir"));
+    std::fs::write(format!("{dir}/sub dir/f.dlt"), b"x").expect("write");
+    let paths = [
+        "{D}", "{D}/", "{D}/plain.txt", "{D}/missing", "{D}/sub dir", "{D}/sub dir/f.dlt", "{D}/a.zip", "{D}/a.zip!", "{D}/a.zip!/", "{D}/a.zip!/x.dlt", "{D}/a.zip!/sub", "{D}/a.zip!/sub/",
+        "{D}/a.zip!/sub/y.dlt", "{D}/a.zip!/sub/deep", "{D}/a.zip!/sub/deep/z.txt", "{D}/a.zip!/nomatch", "{D}/a.zip!/../x", "{D}/empty.zip", "{D}/empty.zip!", "{D}/empty.zip!/", "{D}/empty.zip!/x",
+        "{D}/corrupt.zip!/", "{D}/corrupt.zip!/x", "{D}/truncated.zip!/", "{D}/truncated.zip!/x.dlt", "{D}/plain.txt!/", "{D}/plain.txt!/x", "{D}/missing.zip!/x", "{D}/missing.zip!", "", "!", "!/", "/", "relative/path",
+    ];
+    let mut v = vec![];
+    for cmd in ["stat", "readDirectory", "bogus"] {
+        for p in paths {
+            v.push((cmd.to_string(), p.replace("{D}", dir)));
+        }
+    }
+    v
+}
+fn fs_family(ctx: &mut Ctx, dir: &str, file: &str) {
+    let cases = fs_cases(dir);
+    ctx.begin_family("fs_product", &format!("{} (cmd, path) pairs of the stateless fs command x session {{closed, open}}: directories, files, zip archives (3 members / no entry / corrupt / truncated), archive-internal paths, malformed forms", cases.len()));
+    let mut d = Driver::spawn();
+    for open in [false, true] {
+        let _ = d.step("RESET", 90);
+        if open {
+            let _ = d.step(&format!(r#"C open {{"files":["{file}"]}}"#), 90);
+        }
+        for (cmd, path) in &cases {
+            ctx.mine();
+            let cj = || json!({"family": "fs_product", "cmd": cmd, "path": path.replace(dir, "{D}"), "open": open});
+            let line = format!("C fs {}", json!({"cmd": cmd, "path": path}));
+            ctx.landmark("fs_product_case");
+            ctx.sum.evaluations += 1;
+            ctx.sum.states += 1;
+            ctx.sum.nontrivial += 1;
+            match d.step(&line, 60) {
+                Err(e) => {
+                    ctx.violation(if format!("{e:?}").contains("Hang") { "hang" } else { "driver_died" }, "fs", cj, format!("{e:?}"));
+                    d.kill();
+                    d = Driver::spawn();
+                    if open {
+                        let _ = d.step(&format!(r#"C open {{"files":["{file}"]}}"#), 90);
+                    }
+                }
+                Ok(r) => {
+                    if !r["panic"].is_null() {
+                        let p = r["panic"].as_str().unwrap_or("");
+                        ctx.violation("panic", p.split('|').next().unwrap_or(""), cj, format!("fs {cmd} panicked: {}", p.split('|').nth(1).unwrap_or("")));
+                        continue;
+                    }
+                    let frames = r["frames"].as_array().cloned().unwrap_or_default();
+                    let replies: Vec<&str> = frames.iter().filter_map(|f| f["t"].as_str()).filter(|t| t.starts_with("ok:") || t.starts_with("err:")).collect();
+                    if replies.len() != 1 || frames.len() != 1 {
+                        ctx.violation("reply_count", "fs", cj, format!("{} frames ({} replies) for one fs command", frames.len(), replies.len()));
+                    } else if replies[0].starts_with("ok:") {
+                        ctx.landmark("fs_reply_ok");
+                    } else {
+                        ctx.landmark("fs_reply_err");
+                    }
+                }
+            }
+        }
+    }
+    d.kill();
+    ctx.end_family(true);
 }
 
 /// transcript of a history on an endpoint: per command (reply class, canonical id announced) and per canonical
